@@ -172,8 +172,10 @@ pub fn check(v: &View) -> Vec<Violation> {
             // waiting for the end of an actor that runs on, is still held by somebody (be it the
             // waiter itself) and was never asked to stop is not a hang, it is what was asked for
             if matches!(o.inner, Op::Join { .. } | Op::JoinFinish | Op::JoinPoll | Op::JoinCollect | Op::DropThenJoin { .. } | Op::Await { .. } | Op::Take { .. }) {
-                let ends = o.target.and_then(|t| v.actor_of(t)).is_some_and(|a| {
-                    let t = o.target.unwrap();
+                // (the slot-less join ops belong to the client's owning address: the only actor)
+                let target = o.target.or(if v.sc.actors.len() == 1 && matches!(o.inner, Op::JoinFinish | Op::JoinPoll | Op::JoinCollect) { Some(0) } else { None });
+                let ends = target.and_then(|t| v.actor_of(t)).is_some_and(|a| {
+                    let t = target.unwrap();
                     a.dead.is_some()
                         || v.stop_requests(t).iter().any(|r| r.accepted_ret.is_some())
                         || crate::census::census(v, t).t0().is_some_and(|x| x < v.phase_seq(Phase::ClientsDone))
